@@ -47,7 +47,9 @@ def strategy(tier):
     prog = st.fixed_dictionaries({"kind": st.just("program"), "prog": gen_prog.programs(max_stmts=25)})
     doc = st.fixed_dictionaries({"kind": st.just("document"), "doc": documents()})
     bad = st.fixed_dictionaries({"kind": st.just("invalid"), "which": st.integers(0, 9), "prog": gen_prog.programs(max_stmts=6)})
-    return st.one_of(prog, prog, prog, doc, doc, bad)
+    from vf.core import weighted
+
+    return weighted((3, prog), (2, doc), (1, bad))
 
 
 @st.composite
